@@ -178,9 +178,22 @@ def check_runtime(model, rep):
     f = mem.func
     text = src(f.node)
     asg = [c_ for c_ in calls_in(f.node) if method_name(c_) == 'assign_to']
-    ok = any("get_attr('asarray')" in src(a) and 'get_argument(self.name)' in src(a) and any(k.arg == 'dtype' for cc in calls_in(a) for k in cc.keywords) for a in asg)
-    rep.ob('R13.3', f.key, f.where(), ok, 'argument values are ingested through numpy.asarray(value, dtype=...)' if ok else
-           'Argument._compile no longer ingests through numpy.asarray(..., dtype=...)', statement='ingest-asarray')
+    ingest = [a for a in asg if 'get_argument(self.name)' in src(a)]
+    ok = any('self.ast_dtype' in src(a) and ("get_attr('asarray')" in src(a) or "get_attr('astype')" in src(a)) for a in ingest)
+    rep.ob('R13.3', f.key, f.where(), ok, 'argument values are ingested through a conversion to the declared element kind' if ok else
+           'Argument._compile no longer converts the supplied value to the declared element kind', statement='ingest-asarray')
+    # R13.6: the conversion must not change the kind of the value silently
+    checked = False
+    for a in ingest:
+        for cc in calls_in(a):
+            kw = {k.arg: src(k.value) for k in cc.keywords}
+            if "get_attr('astype')" in src(cc.func) and any(f"LiteralStr('{c_}')" in kw.get('casting', '') for c_ in ('no', 'equiv', 'safe', 'same_kind')):
+                checked = True
+    dtests = [i for i in calls_in(f.node) if method_name(i) == 'if_' and i.args and "get_attr('dtype')" in src(i.args[0])]
+    checked = checked or (bool(dtests) and any(method_name(r) == 'raise_' for r in calls_in(f.node)))
+    rep.ob('R13.6', f.key, f.where(), checked, 'the emitted conversion is casting-checked (same-kind or stricter), so a value of another kind raises' if checked else
+           'the supplied value is converted with an unchecked cast (numpy.asarray(value, dtype=...) or astype without a casting rule): a complex value handed to a real argument loses its imaginary part, '
+           'a real handed to an integer argument is truncated and strings are parsed, all silently', statement='dtype-cast-checked')
     ifs = [c_ for c_ in calls_in(f.node) if method_name(c_) == 'if_']
     ok = False
     for i in ifs:
@@ -328,6 +341,7 @@ def run(model, rep, tier):
     rep.rule('R13.3', 'run-time ingestion and substitution keep shape/dtype comparisons')
     rep.rule('R13.4', 'raw specification consumed only through _argument_to_array')
     rep.rule('R13.5', 'announced argument tables agree with substitution; targets validated')
+    rep.rule('R13.6', 'supplied argument values are converted with a casting-checked conversion (wrong kind raises)')
     check_names(model, rep)
     check_spellings(model, rep)
     check_runtime(model, rep)
